@@ -200,3 +200,9 @@ SPEC_FUNCS['PHASE_TOKEN'] = PHASE_TOKEN
 def DestabSel(gs, obs, r, N):
     # selection of *active* stabilizers i in [r, N): those whose destabilizer partner gs[N+i] anticommutes with obs
     return [1 if (i >= r and AcqSum(gs[N + i], obs, N) % 2 == 1) else 0 for i in range(N)]
+
+
+@spec('int1', 'int1', ret='int1')
+def Xor(a, b):
+    # string part of the product of two Pauli strings (pointwise sum mod 2), total
+    return [(a[c] + b[c]) % 2 for c in range(len(a))]
